@@ -1,1 +1,3 @@
 import QibGen.Tables
+import QibGen.GateFlags
+import QibGen.GatesReal
